@@ -5,7 +5,9 @@ spec   : spec/VEcuContract.tla (contract: Chain / Matches / VisibleOk / NextStat
 MC     : MC_VEcu_cov (action coverage), MC_VEcu_oneoff (design-level E4), MC_VEcu_allq / _all (all 2^9 switch subsets),
          MC_VEcu_devS20 / _devS20b negative controls
 binding: code -> spec: real RandomUDSServer(seed, parameters) behind UDSServerTransport.handle_request,
-         every exchange validated by Trace_VEcu (TLC);
+         every exchange validated by Trace_VEcu (TLC); histories over several tester connections (harness.c13_conn:
+         hang up / reconnect / two testers / pauses) through the real handle_client loops and run() of the tcp-lines
+         and unix-lines server transports;
          spec -> code: the transitions TLC prints for the design layer are replayed into a real
          RandomUDSServer whose `services` is the MC model.
 """
@@ -22,10 +24,11 @@ from typing import Any
 
 import gallia.services.uds.server as srv
 
+from harness import c13_conn as K
 from harness import c13_corpus as C
 from harness import c13_ecu as E
 from harness import c13_replay as R
-from harness import tlc
+from harness import tlc, vloop
 from harness.common import Machinery, Report, quiet_gallia_logging
 
 _RE_COV = re.compile(r"^<(\w+) line \d+, col \d+ to line \d+, col \d+ of module \w+(?: \([\d ]+\))?>: (\d+):(\d+)", re.M)
@@ -174,6 +177,107 @@ async def drive(tier: str, seed: int, corpus: E.Corpus, exp: R.Export | None, in
     # -- spec -> code
     if exp is not None:
         info["spec_to_code"] = await R.replay_export(exp, corpus, stride=1 if quick else 2)
+    info["_models"] = models
+
+
+def mutant_transports() -> dict[str, Any]:
+    """Transport variants for the self-tests of the connection family: two that lose the state on a connection event
+    (must be rejected with an E3 clause) and one legitimate alternative (falls back after ISO's S3server = 5 s
+    instead of 10 s: must be accepted)."""
+    class ResetOnHangup(srv.TCPUDSServerTransport):
+        async def handle_client(self, reader: Any, writer: Any) -> None:
+            try:
+                await super().handle_client(reader, writer)
+            finally:
+                self.server.state.reset()
+
+    class ResetOnConnect(srv.UnixUDSServerTransport):
+        async def handle_client(self, reader: Any, writer: Any) -> None:
+            self.server.state.reset()
+            await super().handle_client(reader, writer)
+
+    class TimeoutS3(srv.TCPUDSServerTransport):
+        async def handle_request(self, request_pdu: bytes) -> Any:
+            if srv.time() - self.last_time_active >= 5:
+                self.server.state.reset()
+            return await super().handle_request(request_pdu)
+
+    return {"reset-on-hangup": (ResetOnHangup, "tcp-mem", "E3/"), "reset-on-connect": (ResetOnConnect, "unix-mem", "E3/"),
+            "timeout-after-5s": (TimeoutS3, "tcp-mem", None)}
+
+
+def drive_connections(tier: str, seed: int, corpus: E.Corpus, info: dict[str, Any]) -> None:
+    """Histories that span several tester connections (harness.c13_conn): through the real handle_client loop of the
+    tcp-lines and the unix-lines server transport on in-memory streams, and through the real run() on real sockets."""
+    quick = tier == "quick"
+    models = info.pop("_models")
+    stats: dict[str, Any] = {"scripts": 0, "steps": 0, "by_flavour": {}, "templates": set(), "reopened": 0,
+                             "gaps_state_must_persist": K.GAPS_PERSIST, "gaps_fall_back_admissible": K.GAPS_TIMEOUT}
+
+    def record(mi: int, sd: int, pa: str, fl: str, name: str, gap: int, target: Any, script: K.Script,
+               steps: list[dict[str, Any]]) -> None:
+        if not steps:
+            return
+        corpus.add(m=mi, B=E.ALL, mode="E", steps=steps,
+                   meta={"seed": sd, "params": pa, "origin": "connections", "flavour": fl, "template": name, "gap": gap,
+                         "session": target[0], "script": script})
+        stats["scripts"] += 1
+        stats["steps"] += len(steps)
+        stats["by_flavour"][fl] = stats["by_flavour"].get(fl, 0) + len(steps)
+        stats["templates"].add(name)
+
+    async def mem_part() -> None:
+        for sd, pa, s, m in models:
+            p = E.Probe(s)
+            mi = corpus.model_index(m)
+            k = 0
+            for target in K.targets(m)[: (2 if quick else 3)]:
+                for gap in K.GAPS_PERSIST + K.GAPS_TIMEOUT:
+                    for name, script in K.scripts_for(m, target, gap).items():
+                        fl = K.flavour_for(k)
+                        k += 1
+                        record(mi, sd, pa, fl, name, gap, target, script, await K.run_script(p, script, fl, stats=stats))
+
+    async def sock_part() -> None:
+        # the servers started the way `gallia script vecu` starts them; no suppressed requests (silence could only be
+        # told by waiting), no resets
+        names = ["reconnect", "handshake-split", "two-testers-one-leaves", "visitor", "dropped-by-server"]
+        for sd, pa, s, m in [x for x in models if K.targets(x[3])][: (1 if quick else 3)]:
+            p = E.Probe(s)
+            mi = corpus.model_index(m)
+            target = K.targets(m)[0]
+            for fl in ("tcp-run", "unix-run"):
+                for gap in (0, 4, 11):
+                    S = K.scripts_for(m, target, gap, suppress=False, reset=False)
+                    for name in names if gap == 0 else names[:3]:
+                        if name in S:
+                            record(mi, sd, pa, fl, name, gap, target, S[name],
+                                   await K.run_script(p, S[name], fl, stats=stats))
+
+    vloop.run(mem_part())
+    asyncio.run(sock_part())
+    stats["templates"] = sorted(stats["templates"])
+    info["connections"] = stats
+
+
+async def drive_transport_mutants(seed: int, corpus: E.Corpus) -> dict[str, list[dict[str, Any]]]:
+    """Self-test of the connection family (runs on the virtual-time loop)."""
+    out: dict[str, list[dict[str, Any]]] = {}
+    base = await E.make_server(1 + 17 * seed, "mandatory")
+    m = E.model_of(base)
+    mi = corpus.model_index(m)
+    p = E.Probe(base)
+    for name, (cls, fl, _prefix) in mutant_transports().items():
+        n0 = len(corpus.traces)
+        for target in K.targets(m)[:2]:
+            for gap in (0, 4, 11):
+                for tname, script in K.scripts_for(m, target, gap).items():
+                    steps = await K.run_script(p, script, fl, st_cls=cls)
+                    if steps:
+                        corpus.add(m=mi, B=E.ALL, mode="E", steps=steps,
+                                   meta={"origin": "transport-mutant", "mutant": name, "template": tname, "gap": gap})
+        out[name] = corpus.traces[n0:]
+    return out
 
 
 async def drive_mutants(seed: int, corpus: E.Corpus) -> dict[str, list[dict[str, Any]]]:
@@ -203,12 +307,17 @@ def run(tier: str, seed: int) -> Report:
     quick = tier == "quick"
     rep = Report("C13", tier, seed)
     rep.rule = ("one evaluation = one request sent to a real RandomUDSServer through UDSServerTransport.handle_request "
+                "(or over a tester connection served by the real TCP/Unix server transport) "
                 "and judged by TLC (Trace_VEcu, clauses E1..E4); distinct = distinct (model, switch set, state before, "
                 "request bytes); non-trivial = the answer is anything but serviceNotSupported for a service id the "
                 "model does not know")
     rep.assumptions = [
         "the 10 s inactivity reset of UDSServerTransport is kept out of play: gallia.services.uds.server.time is "
-        "replaced by a constant clock in the harness process",
+        "replaced by a clock in the harness process that stands still unless a history advances it (keep-alive and "
+        "connection histories)",
+        "histories over several tester connections: a pause shorter than ISO 14229-2's S3server (5 s) between two "
+        "requests must leave the state alone whatever happened to connections meanwhile; from 5 s on both keeping the "
+        "state and falling back to the power-on state are accepted (gallia's virtual ECU uses 10 s)",
         "RNG() without seeds (the security seed) is made reproducible by a counter-seeded subclass installed as "
         "gallia.services.uds.server.RNG in the harness process; seeded uses are untouched",
         "'parsable' is the verdict of gallia's own request codec (UDSRequest.parse_dynamic is not a RawRequest), taken "
@@ -256,10 +365,12 @@ def run(tier: str, seed: int) -> Report:
     exp = R.Export(eres.out)
     mark("export")
     # ---- 3. drive the real code
-    corpus = E.Corpus()
+    corpus = K.ConnCorpus()
     info: dict[str, Any] = {}
     asyncio.run(drive(tier, seed, corpus, exp, info))
     mark("drive")
+    drive_connections(tier, seed, corpus, info)
+    mark("drive-connections")
     # ground truth for "parsable": the codec's verdict taken in pristine interpreters, not in this process (which
     # has parsed everything above in some order); the two orders must agree with each other
     truth, disagree = E.pristine_verdicts([s["hex"] for t in corpus.traces for s in t["steps"]])
@@ -373,8 +484,9 @@ def run(tier: str, seed: int) -> Report:
         raise Machinery(f"binding self-test: no accepted exchange to corrupt for some field "
                         f"(have {[k for k, _c in corrupted]})")
     mutants = asyncio.run(drive_mutants(seed, corpus))
-    sv = corpus.validate([c for _k, c in corrupted] + [t for ts in mutants.values() for t in ts], parallel=1,
-                         steps_per_batch=10**9)
+    tmutants = vloop.run(drive_transport_mutants(seed, corpus))
+    sv = corpus.validate([c for _k, c in corrupted] + [t for ts in mutants.values() for t in ts]
+                         + [t for ts in tmutants.values() for t in ts], parallel=1, steps_per_batch=10**9)
     del corpus.traces[n_real:]
     cor = {k: sv[c["id"]][0] for k, c in corrupted}
     if any(x == "ok" for x in cor.values()):
@@ -389,6 +501,17 @@ def run(tier: str, seed: int) -> Report:
                 continue
             raise Machinery(f"binding self-test: server mutant '{name}' not rejected with a {prefix} clause "
                             f"(labels: {labels}): the contract / corpus is too weak")
+    for name, (_cls, _fl, prefix) in mutant_transports().items():
+        labels = sorted({lab for t in tmutants[name] for _i, lab in sv[t["id"]][1]})
+        mres[name] = labels
+        if rep.violations:  # the tree under test is itself broken: report that, not the self-test
+            continue
+        if prefix is None and labels:
+            raise Machinery(f"binding self-test: the legitimate transport variant '{name}' is rejected ({labels}): "
+                            "the contract demands more than the statement")
+        if prefix is not None and not any(lab.startswith(prefix) for lab in labels):
+            raise Machinery(f"binding self-test: transport mutant '{name}' not rejected with a {prefix} clause "
+                            f"(labels: {labels}): the connection family / contract is too weak")
     rep.extra["binding_selftest"] = {"corrupted": cor, "server_mutants": mres}
     mark("selftests")
     E.unpatch_env()
@@ -453,6 +576,19 @@ def replay(path: str) -> int:
             else:
                 s = await E.make_server(meta["seed"], meta["params"])
                 m = E.model_of(s)
+            if meta.get("origin") == "connections":  # a history over several connections: re-run the whole script
+                fl = meta["flavour"]
+                p = E.Probe(s)
+                runner = vloop.run if fl.endswith("-mem") else asyncio.run  # a loop of its own, in a thread of its own
+                steps = await asyncio.to_thread(lambda: runner(K.run_script(p, meta["script"], fl, set(d["B"]))))
+                c = K.ConnCorpus()
+                c.add(m=c.model_index(m), B=set(d["B"]), mode="E", steps=steps, meta={})
+                verdict, badsteps, _u = c.validate(parallel=1)[0]
+                print(f"replay connections flavour={fl} template={meta['template']} gap={meta['gap']}s "
+                      f"exchanges={[(x['hex'][:16], x['rhex'], x['s'], x['l']) for x in steps[:badsteps[0][0] if badsteps else 4][-4:]]} "
+                      f"verdict={verdict}")
+                bad += verdict != "ok"
+                continue
             p = E.Probe(s)
             p.fresh(set(d["B"]))
             s.state.session = d["start_state"]["s"]
